@@ -238,10 +238,25 @@ pub fn replay(id: &str, path: &str) -> i32 {
             code
         }
         _ => {
-            // the replay file carries the complete case; for this property the single-case entry point
-            // is the check itself restricted by hand (see DESIGN.md §1)
-            eprintln!("no single-case replay entry for {id}: re-run ./check {id} (the case in {path} is enumerated deterministically)");
-            2
+            // No single-case entry point for this property: the enumeration is deterministic, so the
+            // check is run again and only a violation on exactly the recorded case counts.
+            let tier = v["tier"].as_str().and_then(Tier::parse).unwrap_or(Tier::Quick);
+            let scratch = format!("{VERIF_ROOT}/target/tmp/replay-{}", std::process::id());
+            // SAFETY: single-threaded at this point (before any worker is spawned).
+            unsafe {
+                std::env::set_var("HV_REPLAY_CASE", case.to_string());
+                std::env::set_var("HV_REPLAY_PATH", path);
+                std::env::set_var("VERIF_EVIDENCE_DIR", format!("{scratch}/evidence"));
+                std::env::set_var("VERIF_REPLAY_DIR", format!("{scratch}/replays"));
+            }
+            let _ = std::fs::create_dir_all(format!("{scratch}/evidence"));
+            println!("replay by re-enumeration ({} tier): only the recorded case is judged", tier.name());
+            let code = run(id, tier);
+            let _ = std::fs::remove_dir_all(&scratch);
+            if code == 0 {
+                println!("replay: no violation");
+            }
+            code
         }
     }
 }
